@@ -1,1 +1,242 @@
-pub fn run(_ctx: &crate::Ctx) -> i32 { eprintln!("not built yet"); 2 }
+//! C11 — firmware upload sends exactly the requested bytes of the right file.
+
+use crate::script::Chunking;
+use crate::seq::*;
+use crate::Ctx;
+use refcodec::evidence::{sharded, Report};
+use refcodec::prng::{fnv, Rng};
+use serde_json::json;
+use std::collections::BTreeMap;
+
+fn pick_block(rng: &mut Rng) -> u32 {
+    match rng.below(14) {
+        0 => 1,
+        1 => 2,
+        2 => 127,
+        3 => 128,
+        4 => 253,
+        5 => 254,
+        6 => 255,
+        7 => 256,
+        8 => 257,
+        9 => 1024,
+        10 => 32767,
+        11 => 32768,
+        12 => 1 + rng.below(32768) as u32,
+        _ => 1 + rng.below(600) as u32,
+    }
+}
+
+fn pick_size(rng: &mut Rng, block: u32, big: bool) -> usize {
+    match rng.below(12) {
+        0 => 0,
+        1 => 1,
+        2 => block.saturating_sub(1) as usize,
+        3 => block as usize,
+        4 => block as usize + 1,
+        5 if big => 65535,
+        6 if big => 65536,
+        7 if big => 200 * 1024,
+        8 => 2 * block as usize,
+        _ => rng.below(if big { 5000 } else { 700 }) as usize,
+    }
+}
+
+fn one_upload(r: &mut Report, rng: &mut Rng, shard: usize, schema: &refcodec::layout::Schema, pools: &Pools, quick: bool) {
+    let block = pick_block(rng);
+    let big = rng.chance(1, if quick { 12 } else { 5 });
+    // payload directory: random subset of the recognised paths + unrelated files / sub-directories
+    let mut files: BTreeMap<u8, Vec<u8>> = BTreeMap::new();
+    let density = *rng.pick(&[1u64, 3, 8, 20]);
+    for (_, id) in RECOGNISED.iter() {
+        if rng.chance(density, 21) {
+            let n = pick_size(rng, block, big);
+            files.insert(*id, rng.bytes(n));
+        }
+    }
+    if files.is_empty() {
+        let id = RECOGNISED[rng.below(21) as usize].1;
+        let n = pick_size(rng, block, big);
+        files.insert(id, rng.bytes(n));
+    }
+    let extra: Vec<(&str, Vec<u8>)> = vec![
+        ("firmware/other.bin", rng.bytes(10)),
+        ("app0/update.spec.bak", rng.bytes(3)),
+        ("app8/update.spec", rng.bytes(5)),
+        ("kernel.gz", rng.bytes(7)),
+        ("firmware/sub/dir/kernel.gz", rng.bytes(9)),
+        ("README", vec![]),
+    ]
+    .into_iter()
+    .filter(|_| rng.chance(1, 2))
+    .collect();
+    let dir = PayloadDir::create(&format!("c11-{shard}"), &files, &extra);
+    let sizes: BTreeMap<u8, u32> = files.iter().map(|(k, v)| (*k, v.len() as u32)).collect();
+    let params = WriteFileParams { dir: dir.dir.clone(), password: rng.below(1_000_000) as usize, block };
+    let announce = WfCodec::announce(params.password as u128, &sizes);
+    let ids: Vec<u8> = files.keys().cloned().collect();
+
+    // request script
+    let max_req = if quick { 48 } else { 200 };
+    let style = rng.below(6);
+    let mut requests: Vec<(u8, u32)> = vec![];
+    match style {
+        0 => {
+            // sequential full download of every file (as far as the request budget goes), ends one request past the end
+            'outer: for id in &ids {
+                let size = files[id].len() as u32;
+                let mut off = 0u32;
+                loop {
+                    requests.push((*id, off));
+                    if requests.len() >= max_req {
+                        break 'outer;
+                    }
+                    if off >= size {
+                        break;
+                    }
+                    off = off.saturating_add(block);
+                }
+            }
+        }
+        1 => {
+            // any order, repeated, overlapping
+            for _ in 0..1 + rng.below(max_req as u64 / 2) {
+                let id = *rng.pick(&ids);
+                let size = files[&id].len() as u64;
+                requests.push((id, rng.below(size + 2) as u32));
+            }
+        }
+        2 => {
+            // boundaries: offset = size, size - 1, size + 1, far beyond, u32::MAX
+            for id in &ids {
+                let size = files[id].len() as u32;
+                for off in [size, size.saturating_sub(1), size + 1, size.saturating_sub(block), size + 100_000, u32::MAX, 0] {
+                    requests.push((*id, off));
+                }
+            }
+            requests.truncate(max_req);
+        }
+        3 => {
+            for _ in 0..rng.below(6) {
+                let id = *rng.pick(&ids);
+                requests.push((id, rng.below(files[&id].len() as u64 + 1) as u32));
+            }
+        }
+        _ => {
+            // tail of the largest file, block by block backwards
+            let id = *ids.iter().max_by_key(|i| files[*i].len()).unwrap();
+            let size = files[&id].len() as u32;
+            let mut off = size;
+            for _ in 0..max_req.min(12) {
+                requests.push((id, off));
+                off = off.saturating_sub(block);
+            }
+        }
+    }
+    let replies: Vec<Reply> = requests
+        .iter()
+        .map(|(id, off)| Reply {
+            variant: "RequestForData".into(),
+            bytes: WfCodec::request(Some(*id), Some(*off), true, true),
+            item_debug: format!("RequestForData(RequestForData {{ tlv: Some(WriteData {{ file: Some(File {{ file_id: Some({id}), file_offset: Some({off}), file_size: None, payload: None }}) }}) }})"),
+            answer: WfCodec::data_block(*id, *off, slice_of(&files[id], *off, block)),
+        })
+        .collect();
+    let sd = refcodec::tables::STREAMS.iter().find(|s| s.name == "feig::WriteFile").unwrap();
+    let mk_check = || CmdCheck::WriteFile { password: params.password as u128, files: sizes.clone(), len: announce.len() };
+    let (chunking, pend) = if rng.chance(1, 3) { (Chunking::Bytewise, true) } else { (Chunking::Whole, false) };
+    let mut h = fnv(&announce) ^ (block as u64) << 20;
+    for (id, off) in &requests {
+        h = h.wrapping_mul(0x100000001b3) ^ ((*id as u64) << 32 | *off as u64);
+    }
+    r.count("data_requests", requests.len() as u64);
+    r.count("files_announced", sizes.len() as u64);
+    r.count("bytes_requested", requests.iter().map(|(id, off)| slice_of(&files[id], *off, block).len() as u64).sum());
+    r.note("block_sizes_seen", &format!("{block:05}"));
+    for (id, off) in &requests {
+        let size = files[id].len() as u32;
+        r.note("offset_classes_seen", if *off == 0 { "0" } else if *off < size { "inside" } else if *off == size { "at-end" } else { "beyond-end" });
+    }
+    // ending: completion / abort / an invalid request
+    let ending = rng.below(4);
+    if ending <= 1 {
+        let fin = make_final(sd, pools, rng, if ending == 0 { "CompletionData" } else { "Abort" });
+        let mut all = replies.clone();
+        all.push(fin);
+        let ex = Exchange {
+            stream: "feig::WriteFile",
+            cmd_bytes: announce.clone(),
+            cmd_check: mk_check(),
+            ack: ACK.to_vec(),
+            final_at: Some(all.len() - 1),
+            replies: all,
+            junk: if rng.chance(1, 2) { vec![] } else { rng.bytes(5) },
+            chunking,
+            pend_between: pend,
+            write_chunk: if rng.chance(1, 4) { Some(1 + rng.below(500) as usize) } else { None },
+            fault: None,
+            wf: Some(&params),
+        };
+        r.case(h ^ ending, !requests.is_empty());
+        r.count(if ending == 0 { "uploads_ending_in_completion" } else { "uploads_ending_in_abort" }, 1);
+        ex.check_c05(r, schema, "C11");
+    } else {
+        // an invalid request: unknown id, recognised-but-absent id, missing id, missing offset, missing file, missing container
+        let absent: Vec<u8> = RECOGNISED.iter().map(|x| x.1).filter(|i| !files.contains_key(i)).collect();
+        let kind = rng.below(6);
+        let (name, bytes): (&'static str, Vec<u8>) = match kind {
+            0 => ("unknown-id", WfCodec::request(Some(*rng.pick(&[0x00u8, 0x01, 0x0f, 0x15, 0x2a, 0x36, 0x99, 0xff])), Some(0), true, true)),
+            1 if !absent.is_empty() => ("recognised-but-not-announced-id", WfCodec::request(Some(*rng.pick(&absent)), Some(0), true, true)),
+            2 => ("missing-id", WfCodec::request(None, Some(rng.below(100) as u32), true, true)),
+            3 => ("missing-offset", WfCodec::request(Some(*rng.pick(&ids)), None, true, true)),
+            4 => ("missing-file-container", WfCodec::request(None, None, true, false)),
+            _ => ("missing-tlv-container", WfCodec::request(None, None, false, false)),
+        };
+        let ex = Exchange {
+            stream: "feig::WriteFile",
+            cmd_bytes: announce.clone(),
+            cmd_check: mk_check(),
+            ack: ACK.to_vec(),
+            replies,
+            final_at: None,
+            junk: vec![],
+            chunking,
+            pend_between: pend,
+            write_chunk: None,
+            fault: Some(Fault { kind: name, at_ack: false, bytes, eof: false }),
+            wf: Some(&params),
+        };
+        r.case(h ^ (0x100 + kind), true);
+        r.count(&format!("invalid_requests.{name}"), 1);
+        ex.check_c06(r, schema, "C11");
+    }
+    if r.wants_sample() && !requests.is_empty() {
+        r.sample(json!({"files": sizes, "unrelated_files": extra.iter().map(|e| e.0).collect::<Vec<_>>(), "block": block, "requests": requests.iter().take(6).collect::<Vec<_>>(), "n_requests": requests.len()}));
+    }
+}
+
+fn make_final(sd: &refcodec::tables::StreamDef, pools: &Pools, rng: &mut Rng, variant: &str) -> Reply {
+    let key = variant_key(sd, variant);
+    let (bytes, dbg) = pools.pick(rng, key).clone();
+    Reply { variant: variant.to_string(), bytes, item_debug: format!("{variant}({dbg})"), answer: ACK.to_vec() }
+}
+
+pub fn run(ctx: &Ctx) -> i32 {
+    let mut report = ctx.report("C11", "exploration");
+    report.rule = "uploads: a payload directory created by the harness (random subset of the 21 recognised paths, sizes {0, 1, block-1, block, block+1, 2*block, 65535, 65536, 200 KiB, random}, random content, plus unrelated files and sub-directories) x block size {1, 2, 127, 128, 253..257, 1024, 32767, 32768, random} x a request script {sequential full download, any order/repeated/overlapping, offsets at/after end of file and u32::MAX, short, backwards} ending in completion, abort or an invalid request {unknown id, recognised-but-absent id, missing id, missing offset, missing file container, missing TLV container}. Oracle over the scripted terminal's event log: the announcement decodes (reference codec) to exactly the set {(id, true size)}; every data request is answered by exactly the reference encoding of {id, offset, file[offset..min(offset+block,size)]} (empty = absent payload) before the next read; an invalid request yields one error, no data, end. Non-trivial = upload with at least one data request; distinct by hash of (announcement, block, requests, ending).".into();
+    report.exhaustive = Some(false);
+    report.assumptions = vec!["files and directories are created under /verif/.build/<work>/scratch and removed afterwards".into(), "files > 4 GiB (u32 truncation) are not exercised".into()];
+    let schema = refcodec::zvt_schema();
+    let pools = Pools::build(&schema, ctx.seed, 6);
+    let n = ctx.by(8_000usize, 300_000usize);
+    let threads = ctx.threads;
+    let seed = ctx.seed;
+    let quick = ctx.quick();
+    sharded(&mut report, threads, |shard, r| {
+        let mut rng = Rng::derive(seed, 0xC11 + shard as u64);
+        for _ in 0..n / threads {
+            one_upload(r, &mut rng, shard, &schema, &pools, quick);
+        }
+    });
+    report.finish()
+}
